@@ -1,0 +1,36 @@
+//go:build verif
+
+// Contracts for package antlr (the hand-written parse-tree listener), checked by /verif/govc. Comment-only.
+
+package antlr
+
+// T-ANTLR: the generated parser's context accessors are opaque. The listener's own stack and the receivers are T-USER-like
+// externs: Accept* links a child into its (not yet filed) parent and never touches a negation flag.
+// (listener discipline, ASSUMED: the stack holds only nodes created by the matching Enter* handler, which are not filed yet)
+//@ extern func (s *stack) Pop() (v)
+//@   nopanic
+//@   modifies stack.*
+//@   ensures !$filedE[v] && !$filedA[v]
+//@ extern func (s *stack) Peek() (v)
+//@   nopanic
+//@ extern func (r ast.ExpressionReceiver) AcceptExpression(exp) (err)
+//@   modifies ast.Expression.LeftExpression, ast.Expression.RightExpression, ast.Expression.SingleExpression, ast.WhenScope.Expression, ast.Assignment.Expression, ast.ArrayMapSelector.Expression, ast.ArgumentList.Arguments
+//@ extern func (r ast.ExpressionAtomReceiver) AcceptExpressionAtom(exp) (err)
+//@   modifies ast.Expression.ExpressionAtom, ast.ExpressionAtom.ExpressionAtom, ast.ThenExpression.ExpressionAtom
+//@ extern func (r *pkg.GruleErrorReporter) AddError(err) ()
+//@   nopanic
+//@   modifies pkg.GruleErrorReporter.*
+
+// C07: the listener files a node only when everything its snapshot depends on is final; nothing already filed is changed
+//@ func (thisListener *GruleV3ParserListener) ExitExpression(ctx) ()
+//@   serves C07
+//@   requires thisListener != nil && thisListener.KnowledgeBase != nil && thisListener.KnowledgeBase.WorkingMemory != nil && thisListener.KnowledgeBase.WorkingMemory.expressionSnapshotMap != nil
+//@   requires filedStable()
+//@   modifies GruleV3ParserListener.StopParse, stack.*, pkg.GruleErrorReporter.*, ast.Expression.Negated, map[string]*ast.Expression, ast.Expression.LeftExpression, ast.Expression.RightExpression, ast.Expression.SingleExpression, ast.WhenScope.Expression, ast.Assignment.Expression, ast.ArrayMapSelector.Expression, ast.ArgumentList.Arguments, $filedE, $filedNegE
+//@   ensures[C07] filedstable: filedStable()
+//@ func (thisListener *GruleV3ParserListener) ExitExpressionAtom(ctx) ()
+//@   serves C07
+//@   requires thisListener != nil && thisListener.KnowledgeBase != nil && thisListener.KnowledgeBase.WorkingMemory != nil && thisListener.KnowledgeBase.WorkingMemory.expressionAtomSnapshotMap != nil
+//@   requires filedStable()
+//@   modifies GruleV3ParserListener.StopParse, stack.*, pkg.GruleErrorReporter.*, ast.ExpressionAtom.Negated, map[string]*ast.ExpressionAtom, ast.Expression.ExpressionAtom, ast.ExpressionAtom.ExpressionAtom, ast.ThenExpression.ExpressionAtom, $filedA, $filedNegA
+//@   ensures[C07] filedstable: filedStable()
